@@ -295,7 +295,7 @@ def run(tier, seed, t0, only=None):
     n = 120 if tier == 'quick' else 1500
     seeds = [seed * 100000 + i for i in range(n)]
     tasks = []
-    cht = 300 if tier == 'quick' else 900
+    cht = 900 if tier == 'quick' else 1800  # a bound, not a cost: CrossHair stops when every path is confirmed (60-190 s)
     for f in ('prop_local_global_roundtrip', 'prop_isolation'):
         tasks.append(dict(mod='vlib.chrun', fn='ch_task', kw=dict(module='vlib.ch.h19', func=f, timeout=cht, functions=FUNCS),
                           timeout=cht * 4 + 300, name=f'crosshair:{f}'))
